@@ -166,7 +166,11 @@ func tyOf(t *Table, rt reflect.Type, path, ctors string, out *[][2]string, stack
 			return "TyTime"
 		}
 		if stack[rt] {
-			panic("recursive type: not expressible as a Registry.ty tree")
+			// a recursive type is unfolded along each path until a struct type repeats; the repeat is cut (a type without
+			// fields). The code's `seen` set visits every struct type reachable through struct/pointer nesting exactly once
+			// and reports an error iff one of them has an offending field; every such type is expanded at least once in
+			// this unfolding (along a simple path), so the verdicts coincide.
+			return "TyNum"
 		}
 		stack[rt] = true
 		defer delete(stack, rt)
@@ -295,7 +299,9 @@ func regStatic(w *core.Writer) {
 		{"RegUnexpField", RegUnexpField{}}, {"RegUnexpPtrField", &RegUnexpPtrField{}}, {"RegUnexpLeaf", RegUnexpLeaf{}},
 		{"RegUnexpLeafTagged", RegUnexpLeafTagged{}}, {"RegExportedEmb", RegExportedEmb{}}, {"RegNamed", &RegNamed{}},
 		{"RegBelowSlice", RegBelowSlice{}}, {"MReq", MReq{}}, {"*PReq", &PReq{}}, {"Wrap", Wrap{}}, {"*WrapP", &WrapP{}}, {"*Carrier", &Carrier{}},
-		{"TReq", TReq{}}, {"SReq", SReq{}}, {"*EReq", &EReq{}}, {"EmbReq", EmbReq{}}, {"*EmbHolder", &EmbHolder{}}, {"*StaticReq", &StaticReq{}},
+		{"TReq", TReq{}}, {"SReq", SReq{}}, {"*EReq", &EReq{}},
+		{"*RHost", &RHost{}}, {"RLink", RLink{}}, {"RHostB", RHostB{}}, {"*RNode", &RNode{}}, {"RTree", RTree{}}, {"*RA", &RA{}}, {"RB", RB{}},
+		{"*RI", &RI{}}, {"RJ", RJ{}}, {"*RBadSelf", &RBadSelf{}}, {"RBadOuter", RBadOuter{}}, {"*RBadInner", &RBadInner{}}, {"EmbReq", EmbReq{}}, {"*EmbHolder", &EmbHolder{}}, {"*StaticReq", &StaticReq{}},
 	}
 	for i, ty := range types {
 		for _, asReq := range []bool{true, false} {
